@@ -556,7 +556,9 @@ ACRONYM = [("ID", "Id"), ("UserID", "UserId"), ("URL", "Url"), ("HTTPServer", "H
 CASEONLY = [("UserName", "Username"), ("ZipCode", "Zipcode"), ("FullName", "FULLNAME"), ("Ipaddr", "IPAddr"),
             ("Emailaddr", "EmailAddr"), ("ISBNcode", "IsbnCode")]
 PLAIN = ["Name", "Age", "Count", "Email", "Score", "Amount", "Status", "Owner", "Price", "Note", "Level", "Rank",
-         "Size", "City", "Street", "Phone", "Weight", "Height", "Color", "Mode", "Region", "Zone", "Flag2", "Ratio"]
+         "Size", "City", "Street", "Phone", "Weight", "Height", "Color", "Mode", "Region", "Zone", "Flag2", "Ratio",
+         # accessor names that begin with "Set" although they are getters (Settings(), Setup()), next to the remainder (Up)
+         "Settings", "Setup", "Settled", "Up"]
 TAGGED = [("Caption", "Title"), ("OrderingTime", "OrderTime"), ("RoomNum", "Room"), ("Nick", "Alias"), ("Qty", "Quantity")]
 UNDERSCORE = [("User_name", "Title2"), ("Zip_code", "Postal")]
 SRC_EMBEDS = ["Base", "Meta", "Core", "Audit"]
